@@ -24,6 +24,8 @@ def base_env(wcls, dcls, focus_w=None, focus_d=None, j=None):
 
 def check(ctx):
     p = ctx.prog
+    # all arithmetic behind this property happens in the numeric type T of the instantiation
+    single_precision(ctx, 'prec.single_type', ['hep::multi_channel_refine_weights', 'hep::multi_channel_chkpt::', 'hep::multi_channel_result::'], 1)
     ctx.assume('weights non-negative, adjustment data finite and non-negative, beta > 0, '
                'minimum weight >= 0 (documented preconditions / property premise)')
     f = p.one('hep::multi_channel_refine_weights')
@@ -199,7 +201,7 @@ def check(ctx):
 def _shared(ctx):
     from . import C19
     from .common import Proxy, share
-    share(ctx, 'C19', 'R7/C19.', ['R2.next_weights', 'R2.parameters_stored'])
+    share(ctx, 'C19', 'R7/C19.', ['R2.next_weights', 'R2.parameters_stored', 'R2.factory_forwards', 'R2.getters'])
 
 
 def algebra_eq(a, b):
